@@ -1,5 +1,5 @@
 /-
-C07 — Coxeter automata accept exactly the geodesic / shortlex normal forms.   (PARTIAL)
+C07 — Coxeter automata accept exactly the geodesic / shortlex normal forms.   (PARTIAL: proved in rank 2)
 
 Only property theorems and non-vacuity examples live here; helper lemmas are in
 `GT.Lemmas.CoxAut`.  Model: `GT.Model.CoxAut`.
@@ -10,6 +10,8 @@ language, the even-length variant accepts exactly the even-length accepted words
 moves / `ss`-deletions preserve the group element (Mathlib `CoxeterSystem`), so a shortening
 move sequence is a kernel-checkable certificate that a word is not reduced.
 
+The central clause is PROVED FOR RANK 2 (dihedral groups, every `m ≥ 2` and `m = ∞`; see the section
+"rank 2" below).  FOR RANK ≥ 3 it is
 NOT PROVED — kept as a comment, never as a theorem (Mathlib has no root systems of Coxeter
 groups, no exchange/deletion condition, no Matsumoto theorem, no dominance order; formalising
 Brink–Howlett is out of reach here):
@@ -25,6 +27,7 @@ Brink–Howlett is out of reach here):
 These clauses are covered only by the bounded comparison in `props/C07.py`, which is a test.
 -/
 import GT.Lemmas.CoxAut
+import GT.Lemmas.CoxRank2
 import Mathlib.GroupTheory.Coxeter.Length
 import Mathlib.Logic.Relation
 
@@ -280,6 +283,319 @@ theorem not_reduced_of_cert (steps : List CertStep) (w w' : List B)
     ¬ cs.IsReduced w :=
   not_reduced_of_moves cs (checkCert_sound steps w w' h) hl
 end
+
+/-! ## rank 2 (dihedral groups): the central clause, proved
+
+For a rank-2 Coxeter matrix `[[1, m], [m, 1]]` (`m ≥ 2`, or `m = 0` for ∞) the central clause of the
+property IS proved:
+
+* `order_simple_mul_simple` / `isReduced_iff_rank2`: in Mathlib's `CoxeterSystem`, `sᵢsᵢ'` has order
+  exactly `M i i'` (every finite rank; via the geometric representation of C08 lifted to the
+  presented group), and the reduced words of a rank-2 group are exactly the alternating words of
+  length `≤ m` (all alternating words for ∞).  Mathlib has only the easy half.
+* `accepts_iff_reduced_rank2`, `shortlex_rank2`, `accepts_iff_reduced_rank2_inf`: for EVERY `m ≥ 2`
+  and for ∞, the automaton `generateAutomaton` builds from a neighbour table with the dihedral
+  reflection structure (`DihedralNb m nb ang`: `nb` is the action of `s₀, s₁` on the `m` positive roots
+  indexed by their angle) accepts exactly the reduced words; the shortlex automaton accepts exactly
+  one word per element, the lexicographically least reduced expression.
+* `coxeterAutomaton_rank2_finite`, `coxeterAutomaton_rank2_inf`: end to end, including the numeric
+  stage `findSmallRoots` with an explicit fuel bound (8/8/16), for the exact rational cosines
+  `m ∈ {2, 3, ∞}` and both thresholds `ε = 0` and `ε = 10⁻⁶`.
+
+REMAINING GAP in rank 2: that `findSmallRoots` produces a `DihedralNb` table for the irrational cosines
+(`m = 4, 5, 6, 7, …`) — the numeric loop over ℝ with `cos(π/m)` is not analysed; the harness checks the
+`DihedralNb` hypothesis on the implementation's small roots for `m = 2..12`, which is a test.
+REMAINING GAP in general: rank ≥ 3 (the Brink–Howlett theorem itself). -/
+
+section rank2
+open GT.C07R2 CoxeterSystem
+
+/-- **the order of `sᵢsᵢ'` in a Coxeter group is exactly `M i i'`** (infinite for the label `0`), for
+every finite rank -/
+theorem order_simple_mul_simple {W : Type*} [Group W] {n : ℕ} {M : CoxeterMatrix (Fin n)}
+    (cs : CoxeterSystem M W) (i i' : Fin n) (hii : i ≠ i') (k : ℕ) (hk : 0 < k)
+    (hM : M i i' = 0 ∨ k < M i i') : (cs.simple i * cs.simple i') ^ k ≠ 1 :=
+  no_early cs i i' hii k hk hM
+
+/-- **reduced words of a rank-2 Coxeter group** -/
+theorem isReduced_iff_rank2 {W : Type*} [Group W] {M : CoxeterMatrix (Fin 2)} (cs : CoxeterSystem M W)
+    (w : List (Fin 2)) :
+    cs.IsReduced w ↔ ∃ ℓ, (M 0 1 = 0 ∨ ℓ ≤ M 0 1) ∧
+      (w = alternatingWord 0 1 ℓ ∨ w = alternatingWord 1 0 ℓ) :=
+  GT.C07R2.isReduced_iff_rank2 cs w
+
+/-- accepted ⇔ the run on bit functions from the empty set succeeds -/
+theorem accepts_iff_runF {nb : Nat → Nat → Option Nat} {nroots rank : Nat} {lex : Bool} {fuel : Nat}
+    {N : List (List Bool)} {A : Table}
+    (h : generateAutomaton nb nroots rank lex fuel = some (N, A)) (w : List Nat) :
+    A.accepts w ↔ (runF nb lex nroots rank (fun _ => false) w).isSome := by
+  rw [accepts_iff_run h, ← bits_replicate nroots, ← run_bits]
+  cases run (succNode nb lex nroots) rank (List.replicate nroots false) w <;> rfl
+
+section
+variable {W : Type*} [Group W] {M : CoxeterMatrix (Fin 2)} (cs : CoxeterSystem M W)
+
+/-- **rank 2, finite label: the geodesic automaton accepts exactly the reduced words.**
+`nb` is any neighbour table with the dihedral reflection structure (`DihedralNb`), `m = M 0 1`. -/
+theorem accepts_iff_reduced_rank2 {nb : Nat → Nat → Option Nat} {ang : Nat → Nat} {fuel : Nat}
+    {N : List (List Bool)} {A : Table} (hd : DihedralNb (M 0 1) nb ang)
+    (h : generateAutomaton nb (M 0 1) 2 false fuel = some (N, A)) (w : List (Fin 2)) :
+    A.accepts (w.map Fin.val) ↔ cs.IsReduced w := by
+  have hm := hd.hm
+  rw [accepts_iff_runF h, dihedral_geo hd, isReduced_iff_rank2]
+  constructor
+  · rintro ⟨ℓ, hℓ, hw⟩
+    refine ⟨ℓ, Or.inr hℓ, (alt_pair w ℓ).2 ?_⟩
+    rcases hw with hw | hw
+    · left; apply map_val_injective; rw [hw, altFrom_map]; rfl
+    · right; apply map_val_injective; rw [hw, altFrom_map]; rfl
+  · rintro ⟨ℓ, hℓ, hw⟩
+    refine ⟨ℓ, by omega, ?_⟩
+    rcases (alt_pair w ℓ).1 hw with hw | hw
+    · left; rw [hw, altFrom_map]; rfl
+    · right; rw [hw, altFrom_map]; rfl
+
+/-- every accepted word is a word in the generators `0..rank-1` -/
+theorem accepted_letters {nb : Nat → Nat → Option Nat} {nroots rank : Nat} {lex : Bool} {fuel : Nat}
+    {N : List (List Bool)} {A : Table}
+    (h : generateAutomaton nb nroots rank lex fuel = some (N, A)) (w : List Nat) (ha : A.accepts w) :
+    ∀ k ∈ w, k < rank := by
+  rw [accepts_iff_runF h] at ha
+  have key : ∀ (w : List Nat) (f : Nat → Bool), (runF nb lex nroots rank f w).isSome → ∀ k ∈ w, k < rank := by
+    intro w
+    induction w with
+    | nil => intro f _ k hk; cases hk
+    | cons a w ih =>
+      intro f hf k hk
+      simp only [runF] at hf
+      split at hf
+      · rename_i hc
+        rcases List.mem_cons.1 hk with rfl | hk'
+        · exact hc.1
+        · exact ih _ hf k hk'
+      · cases hf
+  exact key w _ ha
+
+/-- the shortlex language of a finite dihedral group in terms of words over `Fin 2` -/
+theorem lex_accepts_rank2 {nb : Nat → Nat → Option Nat} {ang : Nat → Nat} {fuel : Nat}
+    {N : List (List Bool)} {A : Table} (hd : DihedralNb (M 0 1) nb ang)
+    (h : generateAutomaton nb (M 0 1) 2 true fuel = some (N, A)) (w : List (Fin 2)) :
+    A.accepts (w.map Fin.val) ↔
+      (∃ ℓ, ℓ ≤ M 0 1 ∧ w = altFrom 0 1 ℓ) ∨ (∃ ℓ, ℓ + 1 ≤ M 0 1 ∧ w = altFrom 1 0 ℓ) := by
+  rw [accepts_iff_runF h, dihedral_lex hd]
+  constructor
+  · rintro (⟨ℓ, hℓ, hw⟩ | ⟨ℓ, hℓ, hw⟩)
+    · left; exact ⟨ℓ, hℓ, map_val_injective (by rw [hw, altFrom_map]; rfl)⟩
+    · right; exact ⟨ℓ, hℓ, map_val_injective (by rw [hw, altFrom_map]; rfl)⟩
+  · rintro (⟨ℓ, hℓ, hw⟩ | ⟨ℓ, hℓ, hw⟩)
+    · left; exact ⟨ℓ, hℓ, by rw [hw, altFrom_map]; rfl⟩
+    · right; exact ⟨ℓ, hℓ, by rw [hw, altFrom_map]; rfl⟩
+
+/-- **rank 2, finite label: the shortlex automaton accepts exactly one word per group element, and it
+is the lexicographically least reduced expression** (generator order `0 < 1`) -/
+theorem shortlex_rank2 {nb : Nat → Nat → Option Nat} {ang : Nat → Nat} {fuel : Nat}
+    {N : List (List Bool)} {A : Table} (hd : DihedralNb (M 0 1) nb ang)
+    (h : generateAutomaton nb (M 0 1) 2 true fuel = some (N, A)) :
+    (∀ w : List (Fin 2), A.accepts (w.map Fin.val) → cs.IsReduced w) ∧
+    (∀ g : W, ∃! w : List (Fin 2), A.accepts (w.map Fin.val) ∧ cs.wordProd w = g) ∧
+    (∀ w w' : List (Fin 2), A.accepts (w.map Fin.val) → cs.IsReduced w' →
+      cs.wordProd w' = cs.wordProd w → w = w' ∨ w < w') := by
+  have hm := hd.hm
+  have hacc := lex_accepts_rank2 hd h
+  have hred : ∀ w : List (Fin 2), A.accepts (w.map Fin.val) → cs.IsReduced w := by
+    intro w hw
+    rw [isReduced_iff_rank2]
+    rcases (hacc w).1 hw with ⟨ℓ, hℓ, rfl⟩ | ⟨ℓ, hℓ, rfl⟩
+    · exact ⟨ℓ, Or.inr hℓ, (alt_pair _ ℓ).2 (Or.inl rfl)⟩
+    · exact ⟨ℓ, Or.inr (by omega), (alt_pair _ ℓ).2 (Or.inr rfl)⟩
+  -- the word `1 0 1 …` of length `m` is not accepted
+  have hnot : ¬ A.accepts ((altFrom (1 : Fin 2) 0 (M 0 1)).map Fin.val) := by
+    intro ha
+    rcases (hacc _).1 ha with ⟨ℓ, _, he⟩ | ⟨ℓ, hℓ, he⟩
+    · have hl := congrArg List.length he
+      rw [altFrom_length, altFrom_length] at hl
+      exact altFrom_ne ℓ (M 0 1) (by omega) he.symm
+    · have hl := congrArg List.length he
+      rw [altFrom_length, altFrom_length] at hl
+      omega
+  have hlt : altFrom (0 : Fin 2) 1 (M 0 1) < altFrom (1 : Fin 2) 0 (M 0 1) := by
+    obtain ⟨k, hk⟩ : ∃ k, M 0 1 = k + 1 := ⟨M 0 1 - 1, by omega⟩
+    rw [hk]
+    exact List.Lex.rel (by decide)
+  have hleast : ∀ w w' : List (Fin 2), A.accepts (w.map Fin.val) → cs.IsReduced w' →
+      cs.wordProd w' = cs.wordProd w → w = w' ∨ w < w' := by
+    intro w w' hw hw' hp
+    by_cases hne : w = w'
+    · exact Or.inl hne
+    · right
+      obtain ⟨_, hpair⟩ := reduced_unique cs (hred w hw) hw' hp.symm hne
+      rcases hpair with ⟨h1, h2⟩ | ⟨h1, h2⟩
+      · rw [h1, h2]; exact hlt
+      · exfalso; rw [h1] at hw; exact hnot hw
+  refine ⟨hred, fun g => ?_, hleast⟩
+  obtain ⟨w₀, hw₀, hg⟩ := cs.exists_isReduced g
+  obtain ⟨hb, hf⟩ := reduced_form cs hw₀
+  -- an accepted word for g
+  have hex : ∃ w : List (Fin 2), A.accepts (w.map Fin.val) ∧ cs.wordProd w = g := by
+    have hbound : w₀.length ≤ M 0 1 := by
+      rcases hb with h0 | h0
+      · omega
+      · exact h0
+    rcases hf with hf | hf
+    · exact ⟨w₀, (hacc w₀).2 (Or.inl ⟨_, hbound, hf⟩), hg.symm⟩
+    · by_cases hlast : w₀.length = M 0 1
+      · -- the other side of the braid relation
+        refine ⟨altFrom 0 1 (M 0 1), (hacc _).2 (Or.inl ⟨_, le_refl _, rfl⟩), ?_⟩
+        rw [hg, hf, hlast, altFrom_eq, altFrom_eq]
+        have hb1 := cs.wordProd_braidWord_eq 0 1
+        have h10 : M 1 0 = M 0 1 := M.symmetric 1 0
+        unfold braidWord at hb1
+        rw [h10] at hb1
+        by_cases he : Even (M 0 1)
+        · simp only [he, if_true]; exact hb1
+        · simp only [he, if_false]; exact hb1.symm
+      · exact ⟨w₀, (hacc w₀).2 (Or.inr ⟨_, by omega, hf⟩), hg.symm⟩
+  obtain ⟨w, hw, hwg⟩ := hex
+  refine ⟨w, ⟨hw, hwg⟩, fun w' ⟨hw', hwg'⟩ => ?_⟩
+  -- uniqueness: two accepted words with the same product coincide
+  by_contra hne
+  obtain ⟨_, hpair⟩ := reduced_unique cs (hred w' hw') (hred w hw) (by rw [hwg, hwg']) hne
+  rcases hpair with ⟨_, h2⟩ | ⟨h1, _⟩
+  · rw [h2] at hw; exact hnot hw
+  · rw [h1] at hw'; exact hnot hw'
+
+/-- **rank 2, label ∞**: both automata accept exactly the reduced words, and every element has exactly
+one reduced word (so the shortlex and the geodesic language coincide, one word per element) -/
+theorem accepts_iff_reduced_rank2_inf {nb : Nat → Nat → Option Nat} {lex : Bool} {fuel : Nat}
+    {N : List (List Bool)} {A : Table} (hM : M 0 1 = 0) (hnb : ∀ p < 2, ∀ k < 2, nb p k = none)
+    (h : generateAutomaton nb 2 2 lex fuel = some (N, A)) :
+    (∀ w : List (Fin 2), A.accepts (w.map Fin.val) ↔ cs.IsReduced w) ∧
+    (∀ w w' : List (Fin 2), cs.IsReduced w → cs.IsReduced w' → cs.wordProd w = cs.wordProd w' → w = w') := by
+  constructor
+  · intro w
+    rw [accepts_iff_runF h, isReduced_iff_rank2]
+    have hstart : (runF nb lex 2 2 (fun _ => false) (w.map Fin.val)).isSome ↔
+        ∃ ℓ, w.map Fin.val = altFrom 0 1 ℓ ∨ w.map Fin.val = altFrom 1 0 ℓ := by
+      cases hw : w.map Fin.val with
+      | nil => exact ⟨fun _ => ⟨0, Or.inl rfl⟩, fun _ => rfl⟩
+      | cons k v =>
+        simp only [runF]
+        by_cases hk : k < 2
+        · simp only [hk, and_self, if_true]
+          have hs : ∀ p, succF nb lex 2 k (fun _ => false) p = decide (p = k) := by
+            intro p
+            unfold succF agF
+            by_cases hp : p < 2
+            · have hany : (List.range k).any (fun j => nb j k == some p) = false := by
+                rw [List.any_eq_false]
+                intro j hj
+                have hj' : j < 2 := by have := List.mem_range.1 hj; omega
+                simp [hnb j hj' k hk]
+              simp only [hp, if_true, hany, Bool.and_false, Bool.false_eq_true, if_false, hnb p hp k hk]
+              by_cases e : p = k <;> simp [e]
+            · have : p ≠ k := by omega
+              simp [hp, this]
+          rw [dihedral_inf nb hnb lex v k _ hk hs]
+          constructor
+          · rintro ⟨ℓ, rfl⟩
+            refine ⟨ℓ + 1, ?_⟩
+            have : k = 0 ∨ k = 1 := by omega
+            rcases this with rfl | rfl
+            · left; rfl
+            · right; rfl
+          · rintro ⟨ℓ, hv | hv⟩ <;> cases ℓ with
+            | zero => simp [altFrom] at hv
+            | succ j =>
+              simp only [altFrom, List.cons.injEq] at hv
+              obtain ⟨rfl, rfl⟩ := hv
+              exact ⟨j, rfl⟩
+        · simp only [hk, false_and, if_false]
+          constructor
+          · intro hx; cases hx
+          · rintro ⟨ℓ, hv | hv⟩ <;> cases ℓ with
+            | zero => simp [altFrom] at hv
+            | succ j => simp only [altFrom, List.cons.injEq] at hv; omega
+    rw [hstart]
+    constructor
+    · rintro ⟨ℓ, hw⟩
+      refine ⟨ℓ, Or.inl hM, (alt_pair w ℓ).2 ?_⟩
+      rcases hw with hw | hw
+      · left; apply map_val_injective; rw [hw, altFrom_map]; rfl
+      · right; apply map_val_injective; rw [hw, altFrom_map]; rfl
+    · rintro ⟨ℓ, _, hw⟩
+      refine ⟨ℓ, ?_⟩
+      rcases (alt_pair w ℓ).1 hw with hw | hw
+      · left; rw [hw, altFrom_map]; rfl
+      · right; rw [hw, altFrom_map]; rfl
+  · intro w w' hw hw' hp
+    by_contra hne
+    exact (reduced_unique cs hw hw' hp hne).1 hM
+
+/-- the conclusion of the end-to-end rank-2 theorems -/
+def Rank2Correct {W : Type*} [Group W] {M : CoxeterMatrix (Fin 2)} (cs : CoxeterSystem M W)
+    (A_geo A_lex : Table) : Prop :=
+  (∀ w : List (Fin 2), A_geo.accepts (w.map Fin.val) ↔ cs.IsReduced w) ∧
+  (∀ w : List (Fin 2), A_lex.accepts (w.map Fin.val) → cs.IsReduced w) ∧
+  (∀ g : W, ∃! w : List (Fin 2), A_lex.accepts (w.map Fin.val) ∧ cs.wordProd w = g) ∧
+  (∀ w w' : List (Fin 2), A_lex.accepts (w.map Fin.val) → cs.IsReduced w' →
+    cs.wordProd w' = cs.wordProd w → w = w' ∨ w < w')
+
+/-- from computed small roots with the dihedral structure to the language statement -/
+theorem rank2_finish {m : ℕ} (hM : M 0 1 = m) (ε c : ℚ) (L : List (List ℚ × List (Option Nat)))
+    (ang : Nat → Nat) (hs : summary (findSmallRoots ε (form2 c) 8 8) = some L) (hl : L.length = m)
+    (hd : DihedralNb m (nbOfList (L.map (·.2))) ang)
+    (hg : (generateAutomaton (nbOfList (L.map (·.2))) m 2 false 16).isSome)
+    (hx : (generateAutomaton (nbOfList (L.map (·.2))) m 2 true 16).isSome) :
+    ∃ A_geo A_lex : Table,
+      coxeterAutomaton ε (form2 c) 8 8 16 false = .ok A_geo ∧
+      coxeterAutomaton ε (form2 c) 8 8 16 true = .ok A_lex ∧ Rank2Correct cs A_geo A_lex := by
+  obtain ⟨⟨N₁, A₁⟩, h₁⟩ := Option.isSome_iff_exists.1 hg
+  obtain ⟨⟨N₂, A₂⟩, h₂⟩ := Option.isSome_iff_exists.1 hx
+  refine ⟨A₁, A₂, coxeterAutomaton_of_summary ε _ 8 8 16 false L N₁ A₁ hs (by rw [hl]; exact h₁),
+    coxeterAutomaton_of_summary ε _ 8 8 16 true L N₂ A₂ hs (by rw [hl]; exact h₂), ?_⟩
+  subst hM
+  exact ⟨accepts_iff_reduced_rank2 cs hd h₁, shortlex_rank2 cs hd h₂⟩
+
+/-- **end to end, rank 2 with exact rational cosines** (`m = 2`: `c = 0`; `m = 3`: `c = -1/2`), for
+`ε = 0` and for the code's `ε = 10⁻⁶`: the whole model pipeline `findSmallRoots` → `generateAutomaton`
+terminates within fuel 8/8/16; its geodesic automaton accepts exactly the reduced words of the
+dihedral group, its shortlex automaton exactly one word per element, the lexicographically least -/
+theorem coxeterAutomaton_rank2_finite (m : ℕ) (c : ℚ) (hmc : (m = 2 ∧ c = 0) ∨ (m = 3 ∧ c = -1 / 2))
+    (hM : M 0 1 = m) (ε : ℚ) (hε : ε = eps0 ∨ ε = eps6) :
+    ∃ A_geo A_lex : Table,
+      coxeterAutomaton ε (form2 c) 8 8 16 false = .ok A_geo ∧
+      coxeterAutomaton ε (form2 c) 8 8 16 true = .ok A_lex ∧ Rank2Correct cs A_geo A_lex := by
+  rcases hmc with ⟨rfl, rfl⟩ | ⟨rfl, rfl⟩
+  · refine rank2_finish cs hM ε 0 [([1, 0], [none, some 0]), ([0, 1], [some 1, none])] (fun p => p) ?_ rfl
+      dihedralNb_two (by decide) (by decide)
+    rcases hε with rfl | rfl
+    · exact smallRoots_two.1
+    · exact smallRoots_two.2
+  · refine rank2_finish cs hM ε (-1 / 2)
+      [([1, 0], [none, some 2]), ([0, 1], [some 2, none]), ([1, 1], [some 1, some 0])]
+      (fun p => if p = 1 then 2 else if p = 2 then 1 else p) ?_ rfl dihedralNb_three (by decide) (by decide)
+    rcases hε with rfl | rfl
+    · exact smallRoots_three.1
+    · exact smallRoots_three.2
+
+/-- **end to end, rank 2, label ∞** (`c = -1`) -/
+theorem coxeterAutomaton_rank2_inf (hM : M 0 1 = 0) (ε : ℚ) (hε : ε = eps0 ∨ ε = eps6) (lex : Bool) :
+    ∃ A : Table, coxeterAutomaton ε (form2 (-1 : ℚ)) 8 8 16 lex = .ok A ∧
+      (∀ w : List (Fin 2), A.accepts (w.map Fin.val) ↔ cs.IsReduced w) ∧
+      (∀ w w' : List (Fin 2), cs.IsReduced w → cs.IsReduced w' → cs.wordProd w = cs.wordProd w' → w = w') := by
+  have hs : summary (findSmallRoots ε (form2 (-1 : ℚ)) 8 8) =
+      some [([1, 0], [none, none]), ([0, 1], [none, none])] := by
+    rcases hε with rfl | rfl
+    · exact smallRoots_inf.1
+    · exact smallRoots_inf.2
+  have hg : (generateAutomaton (nbOfList [[none, none], [none, none]]) 2 2 lex 16).isSome := by
+    cases lex <;> decide
+  obtain ⟨⟨N, A⟩, h⟩ := Option.isSome_iff_exists.1 hg
+  refine ⟨A, coxeterAutomaton_of_summary ε _ 8 8 16 lex _ N A hs h, ?_⟩
+  exact accepts_iff_reduced_rank2_inf cs hM (by decide) h
+
+end
+end rank2
 
 /-! ## non-vacuity -/
 
